@@ -137,6 +137,9 @@ func apply(ns *nbtns.NetBIOSNameServer, c *client, in In, scribble bool) Out {
 	case OpClean:
 		ns.CleanExpiredNames()
 		return Out{OK: true}
+	case OpJump:
+		rt.JumpClock(in.TTL)
+		return Out{OK: true}
 	}
 	panic("bad op")
 }
@@ -149,6 +152,8 @@ func genOp(ttl [3]int64, mix int) In {
 	switch mix {
 	case 0: // registration heavy
 		k = [...]OpKind{OpRegister, OpQuery, OpRegister, OpRegister, OpQuery, OpRelease, OpRefresh, OpMark, OpClean}[kd]
+	case 5: // time heavy: one name, its TTL, refreshes, sweeps and clock jumps issued by the clients themselves
+		k = [...]OpKind{OpRegister, OpQuery, OpRefresh, OpJump, OpClean, OpJump, OpRefresh, OpQuery, OpClean}[kd]
 	case 1, 3, 4: // churn
 		k = [...]OpKind{OpRegister, OpQuery, OpRelease, OpRelease, OpQuery, OpRegister, OpRefresh, OpRegister, OpRelease}[kd]
 	default:
@@ -158,7 +163,13 @@ func genOp(ttl [3]int64, mix int) In {
 	if k == OpClean {
 		return in
 	}
+	if k == OpJump {
+		in.TTL = jumpChoices[(nm+ad)%3] // 1 s, 31 s or 61 s
+		return in
+	}
 	switch mix {
+	case 5:
+		nm, ad = nm%2, ad%2
 	case 3: // hot key: everything on one name, two addresses
 		nm, ad = 0, ad%2
 	case 4: // hot group: group registrations / releases of two names dominate
@@ -207,7 +218,7 @@ func Run(seed uint64, index int64, o hx.Opts) *hx.Result {
 		if z := hx.G(24); z < 3 {
 			ttl[z] = 0
 		}
-		mix := hx.G(5)
+		mix := hx.G(6)
 		mirror := hx.G(4) == 0 // every client runs the same operation list (maximal contention on identical operations)
 		// fixed-width generation: all candidate operations first, the counts afterwards
 		const maxClients, maxOps, maxJumps = 4, 12, 4
